@@ -85,6 +85,9 @@ type HotNode struct {
 	inc        *Incarnation
 	Restarts   int
 	Panics     []string // non-sentinel panics of any task of this node
+	// PollerEnded counts the times Poll() ended by itself (returned an error or
+	// panicked) - in the daemon that is the end of the process
+	PollerEnded int
 	// what was durable when the last incarnation died (read from its LevelDB
 	// before the handle is closed)
 	Deaths      int
